@@ -149,7 +149,7 @@ var refundMsgRe = regexp.MustCompile(`height: (\d+)`)
 
 func TestMinerRegistryHistories(t *testing.T) {
 	genesisIDs := genesisMinerIDs()
-	stats.Check(t, 350, 2500, func(t *rapid.T) {
+	stats.Check(t, 1500, 6000, func(t *rapid.T) {
 		saltCounter++
 		salt := fmt.Sprintf("c20-%d-%d", os.Getpid(), saltCounter)
 		md := &model{recs: map[string]*rec{}, scheduled: map[uint64]map[string]*big.Int{}}
@@ -370,8 +370,9 @@ func TestMinerRegistryHistories(t *testing.T) {
 						acc = common.FromHex(m.src.Addr)
 					}
 					for _, o := range md.recs {
-						if o.active && bytes.Equal(o.account, acc) {
-							t.Fatalf("apply accepted for account %s which already controls miner %s (an account controls at most one miner)\nblock: %s", hx(acc), hx(o.id), descs(batch))
+						// an aborted miner (stake left below the minimum) still exists and still belongs to its account
+						if (o.active || o.stake > 0) && bytes.Equal(o.account, acc) {
+							t.Fatalf("apply accepted for account %s which already controls miner %s (stake %d, active %v) - an account controls at most one miner\nblock: %s", hx(acc), hx(o.id), o.stake, o.active, descs(batch))
 						}
 					}
 					if m.stake < minStake(m.typ) || m.typ > 1 {
@@ -438,7 +439,7 @@ func TestMinerRegistryHistories(t *testing.T) {
 						t.Fatalf("change-account accepted from %s which is not the miner's account %s\nblock: %s", m.src.Addr, hx(cur.account), descs(batch))
 					}
 					for _, o := range md.recs {
-						if o != cur && o.active && bytes.Equal(o.account, m.account) {
+						if o != cur && (o.active || o.stake > 0) && bytes.Equal(o.account, m.account) {
 							t.Fatalf("change-account to %s accepted although it controls miner %s\nblock: %s", hx(m.account), hx(o.id), descs(batch))
 						}
 					}
@@ -641,6 +642,22 @@ func compareRegistry(st *account.AccountDB, md *model, genesisIDs, harnessIDs []
 			}
 			if got != nil && got.Stake != r.stake {
 				return fmt.Sprintf("inactive miner %s: remaining stake by id is %d, want %d", k, got.Stake, r.stake)
+			}
+			if r.stake > 0 && !r.genesis {
+				// aborted, not removed: the record is still there under its id and under its account
+				if got == nil {
+					return fmt.Sprintf("aborted miner %s (stake %d left) not found by id", k, r.stake)
+				}
+				if !bytes.Equal(got.Account, r.account) {
+					return fmt.Sprintf("aborted miner %s: account by id is %s, want %s", k, hx(got.Account), hx(r.account))
+				}
+				if other, dup := seenAccount[hx(r.account)]; dup {
+					return fmt.Sprintf("account %s controls two miners: %s and (aborted) %s", hx(r.account), other, k)
+				}
+				seenAccount[hx(r.account)] = k
+				if byAcc := mm.GetMinerIdByAccount(r.account, st); byAcc == nil || !bytes.Equal(byAcc, r.id) {
+					return fmt.Sprintf("lookup by account %s returns %s, but the account belongs to the aborted miner %s (stake %d left), which lookup by id still returns", hx(r.account), hx(byAcc), k, r.stake)
+				}
 			}
 			if inIter {
 				return fmt.Sprintf("inactive miner %s still appears in registry iteration", k)
